@@ -20,6 +20,7 @@ type Universe struct {
 	// assumptions/abstractions actually used, for evidence
 	notes      map[string]bool
 	viaPointer bool
+	namePkg    map[string]string
 	byName     map[string]*Sort
 	curKey     string
 	strLits    []string
@@ -190,6 +191,15 @@ func (u *Universe) sortOf1(t types.Type, key string) *Sort {
 			name := "S_" + t.Obj().Name()
 			if t.Obj().Pkg() != nil {
 				name = "S_" + t.Obj().Pkg().Name() + "_" + t.Obj().Name()
+				// two packages may share a name (cesium/internal/channel vs distribution/channel)
+				if u.namePkg == nil {
+					u.namePkg = map[string]string{}
+				}
+				if p, ok := u.namePkg[name]; ok && p != t.Obj().Pkg().Path() {
+					name = name + "_" + sanitize(strings.TrimPrefix(t.Obj().Pkg().Path(), "github.com/synnaxlabs/"))
+				} else {
+					u.namePkg[name] = t.Obj().Pkg().Path()
+				}
 			}
 			if ta := t.TypeArgs(); ta != nil {
 				for i := 0; i < ta.Len(); i++ {
